@@ -26,27 +26,6 @@ def sget : List Bytes → Json → Option Json
     | none => none
   | _ :: _, _ => none
 
-/-- the one shape of path the traversal cannot operate on: its last step indexes an array
-    that was itself reached by an index step (an array directly inside an array).
-    `viaIndex` = "the current node was reached by indexing". -/
-def nestedEnd : List Bytes → Json → Bool → Bool
-  | [], _, _ => false
-  | [_], .arr _, viaIndex => viaIndex
-  | p :: r, .obj kvs, _ =>
-    match lookup p kvs with
-    | some c => nestedEnd r c false
-    | none => false
-  | p :: r, .arr xs, _ =>
-    match atoi p with
-    | some i =>
-      if 0 ≤ i then
-        match xs[i.toNat]? with
-        | some c => nestedEnd r c true
-        | none => false
-      else false
-    | none => false
-  | _ :: _, _, _ => false
-
 /-- two paths part ways inside `doc`: at some container both reach, they select different
     children (object keys compared as strings, array indices as numbers) -/
 def apart : List Bytes → List Bytes → Json → Bool
